@@ -115,6 +115,10 @@ def hermitian_configs(tier, hermitian=True):
     add(carrier="A", sizes=[2, 2], spectrum=["0", "0", "1", "2"], terms=[[1]], max_order=3)
     add(carrier="A", sizes=[2, 1], spectrum=["0", "0", "2"], terms=[[1]], max_order=3, fd=[1])
     add(carrier="B", sizes=[2, 2], spectrum=["0", "0", "1", "3"], terms=[[1]], max_order=3)
+    # integer-typed H_0 (np.diag([0, 2, ...]) of dtype int)
+    add(carrier="A", sizes=[1, 1], spectrum=["0", "2"], terms=[[1]], max_order=3, int_h0=True)
+    add(carrier="A", sizes=[2, 1], spectrum=["0", "4", "2"], terms=[[1]], max_order=3, int_h0=True, fd=[0])
+    add(carrier="A", sizes=[3], spectrum=["0", "1", "2"], terms=[[1]], max_order=2, int_h0=True)
     # large common offset: gaps far above atol but tiny relative to the energies (absolute, not relative, degeneracy test)
     add(carrier="A", sizes=[2], spectrum=["1048576", "1048577"], terms=[[1]], max_order=3)
     add(carrier="A", sizes=[3], spectrum=["1048576", "1048577", "1048578"], terms=[[1]], max_order=2, fd={"0": [[0, 1, 1], [1, 0, 0], [1, 0, 0]]})
